@@ -23,6 +23,7 @@ ASSUMPTIONS = [
 ]
 REQUIRED_COUNTERS = ["roundtrip_index", "roundtrip_tuple", "z1d_orders", "lazy_products", "states_enumerations"]
 MIN_NONTRIVIAL = {"quick": 40, "thorough": 200}
+THOROUGH_ROUNDS = 6      # the thorough tier runs the generators this many times (different seeds)
 
 PAIRINGS2 = ["Cantor", "RosenbergStrong", "Szudzik", "PepisKalmar", "HyperbolicPairing"]
 PAIRINGS3 = ["RosenbergStrong", "Szudzik"]
